@@ -25,7 +25,7 @@ const c08SchemaByGo = `
 interface I { x: Int }
 interface J { x: Int }
 type A implements J & I @go(type: "GoA") { x: Int a: Int }
-type B implements I & J @go(type: "GoB") { x: Int b: Int }
+type B implements I & J @go(type: "XGoA") { x: Int b: Int }
 type C { x: Int c: Int }
 union U = A | B
 type Query { is: [I] us: [U] i: I u: U a: A b: B js: [J] }
@@ -43,7 +43,9 @@ type GoA struct {
 	X int32
 	A int32
 }
-type GoB struct {
+// XGoA: the Go type bound to B; its name ends in the name of the type bound
+// to A, so a binding test looser than equality confuses the two.
+type XGoA struct {
 	X int32
 	B int32
 }
@@ -105,7 +107,7 @@ func (e c08Elem) goValue(binding int) interface{} {
 		if e.isA {
 			return &GoA{X: e.x, A: e.v}
 		}
-		return &GoB{X: e.x, B: e.v}
+		return &XGoA{X: e.x, B: e.v}
 	case bindMixed:
 		if e.isA {
 			return &ResA{x: e.x, a: e.v}
